@@ -83,6 +83,7 @@ def handleEngine : Handler
   | "replay-exec", [schema, data, _text, ir, args] => execLike schema data ir args
   | "spec-nolimits", [schema, data, _text, ir, args] => execLike schema data ir args false
   | "det", _ => some "ok"
+  | "det-schema", _ => some "ok"
   | "exec", [schema, data, _text, ir, args] => do
     let d ← parseData schema data
     let q ← parseIR ir
